@@ -1036,3 +1036,14 @@ Proof.
   exists [KLookup 1 [97%N]; KLookup 2 [97%N]; KInsert 1; KInsert 2]. eexists. eexists. exists [97%N], 0%nat, 1%nat.
   split; [vm_compute; reflexivity|]. split; [left; reflexivity|]. split; [right; left; reflexivity|discriminate].
 Qed.
+
+(** what replacing a registered limiter would allow: two throttles of one key, the package
+    limits changed in between (limiter 0 is "stale" for the second call), end up on two
+    limiters — the second one knows nothing of the first one's admissions *)
+Theorem refresh_on_changed_limits_two_limiters_refuted :
+  exists ls s evs k l1 l2, krun (kstep_refresh (Nat.eqb 0)) kinit ls = Some (s, evs) /\
+    In (k, l1) evs /\ In (k, l2) evs /\ l1 <> l2.
+Proof.
+  exists [KThrottle 1 [107%N]; KThrottle 2 [107%N]]. eexists. eexists. exists [107%N], 0%nat, 1%nat.
+  split; [vm_compute; reflexivity|]. split; [left; reflexivity|]. split; [right; left; reflexivity|discriminate].
+Qed.
